@@ -337,6 +337,7 @@ func basicCase(c *CaseCtx, kind string) *ContCase {
 		cc.Prof.MaxDepth = 3
 		cc.Prof.PSome = 25
 		cc.Prof.Composite = true
+		cc.Prof.CompositeFlip = true
 		cc.PerOp = newDetachedPlay(3, 50, 30).PerOp
 	case 4: // big elements at medium slabs: many leaves under one index slab
 		cc.Prof.Sizes = "hostile"
